@@ -162,6 +162,14 @@ def check_case(ctx, case):
 
 
 def check_region(ctx, case):
+    check_region_1(ctx, case, "")
+    if len(case["region"]["cells"]) >= 2:
+        # a second region in the same process with the same name, spacing, cell count and extent but the cells in reverse
+        # order: it must be rebuilt as itself
+        check_region_1(ctx, dict(case, region=dict(case["region"], cells=list(reversed(case["region"]["cells"])))), ":second_region_same_extent")
+
+
+def check_region_1(ctx, case, tag):
     from csep.core.regions import CartesianGrid2D
     L = lattice.Lattice(case["region"])
     o = call(L.build, "from_origins", magnitudes=None)
@@ -175,7 +183,7 @@ def check_region(ctx, case):
         return
     r2 = o.value
     if r2.num_nodes != r1.num_nodes:
-        ctx.violation("region:num_nodes_changed", {"before": r1.num_nodes, "after": r2.num_nodes})
+        ctx.violation("region:num_nodes_changed" + tag, {"before": r1.num_nodes, "after": r2.num_nodes})
         return
     pts = L.probe_points(full_jitter=False)
     lons = numpy.array([p[0] for p in pts])
@@ -183,14 +191,14 @@ def check_region(ctx, case):
     m1, m2 = r1.get_masked(lons, lats), r2.get_masked(lons, lats)
     if not numpy.array_equal(m1, m2):
         i = int(numpy.nonzero(m1 != m2)[0][0])
-        ctx.violation("region:rebuilt_region_masks_differently", {"pt": list(pts[i]), "before": bool(m1[i]), "after": bool(m2[i]), "dh": [float(r1.dh), float(r2.dh)]})
+        ctx.violation("region:rebuilt_region_masks_differently" + tag, {"pt": list(pts[i]), "before": bool(m1[i]), "after": bool(m2[i]), "dh": [float(r1.dh), float(r2.dh)]})
         return
     keep = ~m1
     if keep.any():
         i1, i2 = r1.get_index_of(lons[keep], lats[keep]), r2.get_index_of(lons[keep], lats[keep])
         if not numpy.array_equal(i1, i2):
             j = int(numpy.nonzero(i1 != i2)[0][0])
-            ctx.violation("region:rebuilt_region_indexes_differently", {"pt": [float(lons[keep][j]), float(lats[keep][j])], "before": int(i1[j]), "after": int(i2[j])})
+            ctx.violation("region:rebuilt_region_indexes_differently" + tag, {"pt": [float(lons[keep][j]), float(lats[keep][j])], "before": int(i1[j]), "after": int(i2[j])})
     ctx.count("region_points", len(pts))
 
 
